@@ -4,9 +4,13 @@
 (* Base58Check, Bech32(m), segwit address, WIF or address<->script call is *)
 (* recomputed with the reference algorithms of the BIPs.                   *)
 (***************************************************************************)
-EXTENDS Address, EvBase
+EXTENDS Bip21, EvBase
 
 Refusal == [refused |-> TRUE]
+NatHex(n) == ToHex(BToBytes(n, (BBitLen(n) + 7) \div 8))
+UriOut(u) == [refused |-> FALSE, address |-> ToHex(u.address), has_amount |-> u.amount.has, sats |-> IF u.amount.has THEN NatHex(u.amount.v) ELSE "",
+              has_label |-> u.label.has, label |-> ToHex(u.label.v), has_message |-> u.message.has, message |-> ToHex(u.message.v),
+              others |-> [k \in 1..Len(u.others) |-> <<ToHex(u.others[k][1]), ToHex(u.others[k][2])>>]]
 Expected(e) ==
     CASE e.op = "b58check_decode" -> LET d == DecodeCheck58(FromHex(e.s)) IN IF d.ok THEN [refused |-> FALSE, v |-> ToHex(d.v)] ELSE Refusal
       [] e.op = "b58check_encode" -> [refused |-> FALSE, v |-> ToHex(Check58(FromHex(e.payload)))]
@@ -33,6 +37,12 @@ Expected(e) ==
                              ELSE [refused |-> FALSE, v |-> ToHex(AddressEncode(SpkOfKey(e.fn, FromHex(e.sec)), ClassOf(e.net)))]
       \* a ScriptPubKey built by a constructor for a named network: it remembers that network and its address is that network's
       [] e.op = "ctor" -> [refused |-> FALSE, v |-> ToHex(AddressEncode(FromHex(e.spk), ClassOf(e.net))), net |-> e.net]
+      \* BIP21 payment URIs: the text (UTF-8) parsed, and a request written
+      [] e.op = "bip21_parse" -> LET u == UriParse(FromHex(e.s)) IN IF ~u.ok THEN Refusal ELSE UriOut(u)
+      [] e.op = "bip21_serialize" ->
+            [refused |-> FALSE, v |-> ToHex(UriSerialize([address |-> FromHex(e.address), amount |-> [has |-> e.has_amount, v |-> BFromBytes(FromHex(e.sats))],
+                                      label |-> [has |-> e.has_label, v |-> FromHex(e.label)], message |-> [has |-> e.has_message, v |-> FromHex(e.message)],
+                                      others |-> [k \in 1..Len(e.others) |-> <<FromHex(e.others[k][1]), FromHex(e.others[k][2])>>]]))]
 
 EventOK == i > 0 => Expected(Trace[i]) = Trace[i].out
 Diag == i > 0 => PrintT(<<"DIAG", i, Expected(Trace[i])>>)
